@@ -17,7 +17,9 @@ Lens  == {"zero", "below", "at", "above", "big"}          \* relative to disk_mi
 Feats == {"CR", "LF", "CRLF", "NUL", "U85", "U2028", "astral", "surrogate"}
 Thrs  == {"t0", "t1", "tsmall", "t32k"}
 Disks == {"Disk", "JSONDisk"}
-Accessors == {"get", "getitem", "pop", "read", "pull", "peek", "peekitem", "deque-getitem", "deque-pop", "index-getitem", "index-pop"}
+\* "...-unpickled": the value is fetched through a handle that went through pickle (another process, copy)
+Accessors == {"get", "getitem", "pop", "read", "pull", "peek", "peekitem", "deque-getitem", "deque-pop", "index-getitem", "index-pop",
+              "get-unpickled", "pull-unpickled"}
 
 Sized(k) == k \in {"str", "bytes", "container", "stream"}
 \* is the serialized form at least as long as the threshold?
